@@ -196,6 +196,7 @@ func (e *Engine) globalFacts(vc *FuncVC, key string, t Term) {}
 // axioms asserts the active global axioms of the specification prelude.
 func (vc *FuncVC) axioms(s *State) {
 	e := vc.newEnv(s, s, token.NoPos)
+	e.noLocals = true
 	for _, ax := range vc.eng.specs.Axioms {
 		act := false
 		for _, t := range ax.Tags {
@@ -423,7 +424,7 @@ func (vc *FuncVC) solve(tmpdir string) {
 			}
 			continue
 		}
-		if r == ob.Expect {
+		if r == ob.Expect && !vc.eng.thorough {
 			ob.Verdict = "discharged"
 			ob.By = "z3-new"
 		} else {
